@@ -23,8 +23,13 @@ for i in ids:
     lines = [l for l in notes.splitlines() if l.strip()]
     title = lines[0].strip() if lines else i
     title = re.sub(r'^C\d\d[a-z]\s*[-:–—]*\s*', '', title)
-    m = re.search(r'(?ims)^\s*(Trigger|Needed to manifest|Needs)[^\n]*\n?(.*?)(?=^\s*(Commands|Demo|Note|Verification|Why)\b|\Z)', notes)
-    needs = (m.group(0).strip() if m else '')[:1500]
+    m = re.search(r'(?ims)^\s*(Trigger\b|Needed to manifest|Needs to manifest)[^\n]*\n?(.*?)(?=^\s*(Commands|Demo|Note|Verification|Why)\b|\Z)', notes)
+    needs = (m.group(0).strip() if m else '')
+    if len(needs) < 40:
+        paras = [p.strip() for p in re.split(r'\n\s*\n', notes) if p.strip()]
+        cand = [p for p in paras if re.search(r'(?i)trigger', p)] or [p for p in paras if re.search(r'(?i)property violated|why it violates|violates', p)]
+        needs = cand[0] if cand else ''
+    needs = needs[:1500]
     confirm = open(f'{root}/{i}/confirm.txt').read() if os.path.exists(f'{root}/{i}/confirm.txt') else ''
     r = res.get(i)
     caught = bool(r and r[2] == '1' and int(r[3] or 0) > 0)
